@@ -43,6 +43,11 @@ var shapeN = map[string]map[string]int{
 }
 var wrapDepth = map[string]int{"quick": 3, "thorough": 4}
 
+// shapes with at most this many nodes take the name of each __type from the full alphabet
+// (user type, absent name, root type, built-in scalar, introspection type, empty string, other
+// case); larger shapes from {user type, absent name}
+var namesFullUpto = map[string]int{"quick": 3, "thorough": 4}
+
 var layouts = []struct{ name, yml string }{
 	{"single-file", "schema:\n  - schema.graphql\nexec:\n  filename: graph/generated.go\n  package: graph\nmodel:\n  filename: graph/models_gen.go\n  package: graph\n"},
 	{"follow-schema", "schema:\n  - schema.graphql\nexec:\n  layout: follow-schema\n  dir: graph\n  package: graph\nmodel:\n  filename: graph/models_gen.go\n  package: graph\n"},
@@ -56,25 +61,26 @@ type finding struct {
 }
 
 type output struct {
-	Layout           string         `json:"layout"`
-	Findings         []finding      `json:"findings"`
-	Broken           []string       `json:"broken"`
-	GridSchemas      int            `json:"grid_schemas"`
-	GridPlanned      int            `json:"grid_planned"`
-	GridEvaluations  int            `json:"grid_evaluations"`
-	GridNontrivial   int            `json:"grid_nontrivial"`
-	ShapeSkeletons   int            `json:"shape_skeletons"`
-	ShapesGenerated  int            `json:"shapes_generated"`
-	ShapesValid      int            `json:"shapes_valid"`
-	ShapesReaching   int            `json:"shapes_reaching"`
-	ShapesSentinelOn int            `json:"shapes_sentinel_when_enabled"`
-	ShapesKeyAbsent  int            `json:"shapes_expected_key_absent"`
-	ShapeEvaluations int            `json:"shape_evaluations"`
-	Exhaustive       bool           `json:"exhaustive"`
-	Stopped          string         `json:"stopped"`
-	Samples          []any          `json:"samples"`
-	Bounds           map[string]any `json:"bounds"`
-	WallS            float64        `json:"wall_s"`
+	Layout            string         `json:"layout"`
+	Findings          []finding      `json:"findings"`
+	Broken            []string       `json:"broken"`
+	GridSchemas       int            `json:"grid_schemas"`
+	GridPlanned       int            `json:"grid_planned"`
+	GridEvaluations   int            `json:"grid_evaluations"`
+	GridNontrivial    int            `json:"grid_nontrivial"`
+	ShapeSkeletons    int            `json:"shape_skeletons"`
+	ShapesGenerated   int            `json:"shapes_generated"`
+	ShapesValid       int            `json:"shapes_valid"`
+	ShapesReaching    int            `json:"shapes_reaching"`
+	ShapesSentinelOn  int            `json:"shapes_sentinel_when_enabled"`
+	ShapesKeyAbsent   int            `json:"shapes_expected_key_absent"`
+	ShapesUnknownName int            `json:"shape_type_fields_with_unknown_name"`
+	ShapeEvaluations  int            `json:"shape_evaluations"`
+	Exhaustive        bool           `json:"exhaustive"`
+	Stopped           string         `json:"stopped"`
+	Samples           []any          `json:"samples"`
+	Bounds            map[string]any `json:"bounds"`
+	WallS             float64        `json:"wall_s"`
 }
 
 func harnessFiles() map[string]string {
@@ -191,7 +197,7 @@ func main() {
 			defer rwg.Done()
 			resFile := filepath.Join(probe.ScratchRoot(), "result-"+l.name+".json")
 			cmd := exec.Command(bins[i], "-tier", c.Tier, "-layout", l.name, "-out", resFile, "-budget", fmt.Sprint(share), "-grid-k", fmt.Sprint(gridK[l.name][c.Tier]),
-				"-shape-n", fmt.Sprint(shapeN[l.name][c.Tier]), "-wrap-depth", fmt.Sprint(wrapDepth[c.Tier]))
+				"-shape-n", fmt.Sprint(shapeN[l.name][c.Tier]), "-wrap-depth", fmt.Sprint(wrapDepth[c.Tier]), "-names-full-upto", fmt.Sprint(namesFullUpto[c.Tier]))
 			cmd.Stdout, cmd.Stderr = os.Stderr, os.Stderr
 			if err := cmd.Run(); err != nil {
 				runErrs[i] = fmt.Sprintf("harness for layout %s failed: %v", l.name, err)
@@ -241,7 +247,7 @@ func main() {
 			"grid_schemas": o.GridSchemas, "grid_planned": o.GridPlanned, "grid_query_evaluations": o.GridEvaluations, "grid_distinct_nontrivial_schemas": o.GridNontrivial,
 			"shape_skeletons": o.ShapeSkeletons, "shapes_generated": o.ShapesGenerated, "shapes_valid_executed": o.ShapesValid,
 			"shapes_distinct_reaching_meta_field_when_enabled": o.ShapesReaching, "shapes_revealing_sentinel_when_enabled": o.ShapesSentinelOn,
-			"shapes_expected_key_absent_when_disabled": o.ShapesKeyAbsent, "shape_request_evaluations": o.ShapeEvaluations,
+			"shapes_expected_key_absent_when_disabled": o.ShapesKeyAbsent, "shape_type_fields_asking_for_a_name_not_in_the_schema": o.ShapesUnknownName, "shape_request_evaluations": o.ShapeEvaluations,
 			"exhaustive": o.Exhaustive, "stopped": o.Stopped, "harness_wall_s": o.WallS,
 			"finding_case_counts": func() map[string]int {
 				m := map[string]int{}
@@ -264,7 +270,7 @@ func main() {
 	}
 	c.Cov["evaluations"] = evaluations
 	c.Cov["distinct_nontrivial"] = nontrivial
-	c.Cov["rule"] = "Per probe layout: (1) every assignment of the schema feature grid with at most grid_max_nondefault_slots non-default slots, simplest first; each schema is served through the generated Config.Schema and queried with the standard introspection.Query, an extended query with includeDeprecated:true, the same with includeDeprecated:false, __type(name:) for every user type, and the standard query with introspection disabled (evaluations = requests whose response the oracle judged). A schema is non-trivial when it has at least one non-default feature and the oracle compared at least one user-defined type rebuilt from non-null introspection data; distinct = distinct SDL text per layout. (2) every decorated query shape with at most shape_max_nodes selection nodes containing __schema or __type; valid ones (gqlparser validator) are executed with introspection enabled and disabled (2 evaluations); a shape is non-trivial when the enabled run returned a non-null value for its meta field, distinct = distinct query text per layout."
+	c.Cov["rule"] = "Per probe layout: (1) every assignment of the schema feature grid with at most grid_max_nondefault_slots non-default slots, simplest first; each schema is served through the generated Config.Schema and queried with the standard introspection.Query, an extended query with includeDeprecated:true, the same with includeDeprecated:false, __type(name:) for every user type, and the standard query with introspection disabled (evaluations = requests whose response the oracle judged). A schema is non-trivial when it has at least one non-default feature and the oracle compared at least one user-defined type rebuilt from non-null introspection data; distinct = distinct SDL text per layout. (2) every decorated query shape with at most shape_max_nodes selection nodes containing __schema or __type, the name of each __type taken as literal / variable / defaulted variable from the name alphabet in bounds (existing user type, root type, built-in scalar, introspection type, a name not in the schema, the empty string, an existing name in another case; shapes above shape_type_names_full_upto_nodes nodes use the short alphabet); with introspection disabled every meta field must be null with an error at its path and look the same whatever name was asked for, with introspection enabled a name not in the schema must give a plain null; valid ones (gqlparser validator) are executed with introspection enabled and disabled (2 evaluations); a shape is non-trivial when the enabled run returned a non-null value for its meta field, distinct = distinct query text per layout."
 	c.Cov["exhaustive"] = exhaustive
 	c.Cov["bounds"] = bounds
 	c.Cov["per_layout"] = perLayout
